@@ -23,7 +23,21 @@ def _sym(*xs: Any) -> bool:
     return any(isinstance(x, (V, z3.ExprRef)) for x in xs)
 
 
+def _thunk(x: Any) -> bool:
+    return callable(x) and not isinstance(x, V) and getattr(x, "__name__", "") == "<lambda>"
+
+
 def And(*xs: Any) -> Any:
+    """operands may be thunks: evaluated left to right, natively with short-circuit (like `and`)"""
+    if any(_thunk(x) for x in xs):
+        done = []
+        for x in xs:
+            if _thunk(x):
+                if done and not _sym(*done) and not all(bool(d) for d in done):
+                    return False
+                x = x()
+            done.append(x)
+        xs = tuple(done)
     xs = [x for x in xs]
     if _sym(*xs):
         return VBool(z3.And([V_._b(x) for x in xs]) if xs else z3.BoolVal(True))
@@ -31,6 +45,16 @@ def And(*xs: Any) -> Any:
 
 
 def Or(*xs: Any) -> Any:
+    """operands may be thunks: evaluated left to right, natively with short-circuit (like `or`)"""
+    if any(_thunk(x) for x in xs):
+        done = []
+        for x in xs:
+            if _thunk(x):
+                if done and not _sym(*done) and any(bool(d) for d in done):
+                    return True
+                x = x()
+            done.append(x)
+        xs = tuple(done)
     if _sym(*xs):
         return VBool(z3.Or([V_._b(x) for x in xs]) if xs else z3.BoolVal(False))
     return any(bool(x) for x in xs)
@@ -64,6 +88,12 @@ def Iff(a: Any, b: Any) -> Any:
 
 
 def If(c: Any, a: Any, b: Any) -> Any:
+    """a / b may be thunks (evaluated lazily natively, both symbolically)"""
+    if not _sym(c):
+        r = a if c else b
+        return r() if callable(r) and not isinstance(r, V_.V) else r
+    a = a() if callable(a) and not isinstance(a, V_.V) else a
+    b = b() if callable(b) and not isinstance(b, V_.V) else b
     if _sym(c):
         cb = V_._b(c)
         if isinstance(a, (VInt, int)) and not isinstance(a, bool) and isinstance(b, (VInt, int)):
@@ -294,7 +324,8 @@ class use_ctx:
 
 class Clause:
     def __init__(self, label: str, fn: Callable[..., Any], tags: Sequence[str] = (), must_fail: bool = False,
-                 note: str = "", known: Optional[Dict[str, Callable[..., Any]]] = None):
+                 note: str = "", known: Optional[Dict[str, Callable[..., Any]]] = None, naming: bool = False):
+        self.naming = naming       # a clause that only *names* the result by an uninterpreted symbol (assumed at call sites, nothing to prove)
         self.known = known or {}   # finding id -> predicate (same parameters as fn) delimiting the known-finding case
         self.label = label
         self.fn = fn
@@ -342,7 +373,9 @@ class Contract:
         self.notes: str = ""
         self.xval: Optional[Callable[..., Any]] = None  # generator of native inputs for cross-validation
         self.reify: Optional[Callable[..., Any]] = None
+        self.local_types: Dict[str, Ty] = {}   # declared types of locals initialised with empty literals
         self.axiom_sets: set = set()     # optional spec axiom families needed by this function's proof (e.g. {"addr"})
+        self.loop_havoc: Dict[int, List[str]] = {}   # loop ordinal -> heap components (L.* / D.*) the loop may write (overrides the syntactic guess)
         self.samples: Optional[Callable[[], Any]] = None   # native argument dicts (cross-validation, frame replay)
 
 
@@ -372,10 +405,13 @@ def assumes(c: Contract, label: str, fn: Callable[..., Any]) -> None:
 
 
 def ensures(c: Contract, label: str, fn: Callable[..., Any], tags: Sequence[str] = (), note: str = "",
-            known: Optional[Dict[str, Callable[..., Any]]] = None) -> None:
+            known: Optional[Dict[str, Callable[..., Any]]] = None, naming: bool = False) -> None:
     """known = {finding id: predicate}: the clause is proved outside the predicate's case (must discharge) and,
-    separately, inside it (expected to be refuted while the finding is listed in known_findings.json)."""
-    c.ensures.append(Clause(label, fn, tags, note=note, known=known))
+    separately, inside it (expected to be refuted while the finding is listed in known_findings.json).
+    naming=True: the clause introduces an uninterpreted name for the result (`result == NAME(args)`): it is assumed at call
+    sites and generates no obligation; what it assumes is that the function is deterministic in the named arguments over the
+    part of the heap that its callers leave unchanged (listed in the evidence as an assumption)."""
+    c.ensures.append(Clause(label, fn, tags, note=note, known=known, naming=naming))
 
 
 def must_fail(c: Contract, label: str, fn: Callable[..., Any], tags: Sequence[str] = ()) -> None:
